@@ -254,6 +254,9 @@ class Gate:
 
     def wait_turn(self):
         self.reads += 1
+        if self.reads > 5000:
+            # a parse of these small documents fetches a few dozen tokens: this one is looping
+            raise RuntimeError("token-fetch bound exceeded under the scheduler (%d fetches)" % self.reads)
         self.main.release()
         self.sem.acquire()
 
